@@ -18,6 +18,9 @@ var (
 func vUseURLSet(k int) {
 	if k == 1 {
 		vURoot, vUSub, vUFar = "http://h.example:8001/w/root.json", "http://h.example:8001/w/sub/a.json", "http://h.example:8002/x/c.json"
+	} else if k == 2 {
+		// a sibling directory whose name starts with the name of the root's directory, and a deeper one
+		vURoot, vUSub, vUFar = "file:///w/api/root.json", "file:///w/api-common/a.json", "file:///w/api/deep/c.json"
 	} else {
 		vURoot, vUSub, vUFar = "file:///w/root.json", "file:///w/sub/a.json", "file:///x/c.json"
 	}
@@ -63,6 +66,27 @@ func vRefJSON(ref string) string {
 	return `{"$ref":"` + ref + `"}`
 }
 
+// vRelPath: relative reference from document URL `from` to document URL `to` (same scheme and authority)
+func vRelPath(from, to string) string {
+	cut := func(u string) []string {
+		i := strings.Index(u, "://")
+		rest := u[i+3:]
+		j := strings.Index(rest, "/")
+		return strings.Split(rest[j+1:], "/")
+	}
+	f, t := cut(from), cut(to)
+	fd := f[:len(f)-1]
+	k := 0
+	for k < len(fd) && k < len(t)-1 && fd[k] == t[k] {
+		k++
+	}
+	out := ""
+	for i := k; i < len(fd); i++ {
+		out += "../"
+	}
+	return out + strings.Join(t[k:], "/")
+}
+
 // spellings of a reference from a holder document to a definition of a target document
 func vSpell(holder, target, frag string, alt int) string {
 	if holder == target && alt == 0 {
@@ -71,18 +95,11 @@ func vSpell(holder, target, frag string, alt int) string {
 	if alt == 2 {
 		return target + "#" + frag // absolute
 	}
-	rel := map[string]map[string]string{
-		vURoot: {vURoot: "root.json", vUSub: "sub/a.json", vUFar: "../x/c.json"},
-		vUSub:  {vURoot: "../root.json", vUSub: "a.json", vUFar: "../../x/c.json"},
-		vUFar:  {vURoot: "../w/root.json", vUSub: "../w/sub/a.json", vUFar: "./c.json"},
+	known := target == vURoot || target == vUSub || target == vUFar
+	if !known || (holder == vUFar) != (target == vUFar) && !strings.HasPrefix(vUFar, "file:") {
+		return target + "#" + frag // another authority, or a location spelled specially (e.g. with a query): absolute form
 	}
-	if (holder == vUFar) != (target == vUFar) && !strings.HasPrefix(vUFar, "file:") {
-		return target + "#" + frag // another authority: only the absolute form exists
-	}
-	if r, ok := rel[holder][target]; ok {
-		return r + "#" + frag
-	}
-	return target + "#" + frag // a location outside the table (e.g. with a query): absolute form
+	return vRelPath(holder, target) + "#" + frag
 }
 
 type vTarget struct {
